@@ -20,7 +20,7 @@ import concurrent.futures as cf
 import vlib, gnet
 import n09_net as N
 
-TEMPLATES = ["T2", "T2F", "T1", "T3", "T2H", "T2X", "T2C"]
+TEMPLATES = ["T2", "T2F", "T1", "T3", "T2H", "T2X", "T2C", "T2Ci"]
 HALF_ALWAYS = {"T2H"}        # high-precision copy of T2: mirror-half of the sign patterns in both tiers (budget)
 
 # quick: a sub-product that is complete within itself: only the sign patterns whose first noisy sign is '+'
@@ -376,7 +376,7 @@ def main():
     if S["half"]:
         prod += " (quick sub-product: of the sign patterns only those whose first noisy sign is '+', the other half being the mirror image s -> -s; envelope and gso are the two branches of LocalNetwork::vyrovnani_)"
     ck.finish(
-        "seven templates (T2C: observed coordinates - fixed A + 3 new points G1 (100,100), G2 (300,100), G3 (200,200); <coordinates> session 1 {G1 sigma 3/8 mm, G2 7/4} and "
+        "eight templates (T2Ci = T2C declared in the inconsistent frame axes-xy=en + left-handed angles, y mirrored internally and back on output; T2C: observed coordinates - fixed A + 3 new points G1 (100,100), G2 (300,100), G3 (200,200); <coordinates> session 1 {G1 sigma 3/8 mm, G2 7/4} and "
         "session 2 {G1 4/10, G2 6/5, G3 9/6.5} with diagonal cov-mat, a third cluster {G3 25 12 / 36 mm^2, full 2x2 block}, distances A-G3 and G1-G2; G1, G2 hang on observed coordinates "
         "with exactly zero xy covariance (sigma_x < sigma_y: bearing 100 gon, sigma_x > sigma_y: bearing 0) and on a distance whose bearing at the linearisation point is exactly 0 when "
         "the y errors have equal signs, every point is observed twice in the full network, 108 determined subsets with dof 0 .. 8; the <coordinate-x|y> rows of a diagonal block are "
